@@ -31,6 +31,12 @@ def size_sweep(ctx, rng, cache, destroot, modes):
         specs = [("control-no-damage", 0, data), ("bitflip-last-byte", size - 1, bytes(last)),
                  ("bitflip-first-byte", 0, bytes(first)), ("truncate", size - 1, data[:-1]), ("extend1", size, data + b"\x00")]
         mode = modes[si % len(modes)]
+        # index entries made through the raw index API that point at the same content: without a recorded size (the
+        # index then says 0, i.e. "unknown") and with a size that is simply wrong. Whatever a by-key retrieval makes of
+        # them, an Ok must deliver the stored bytes.
+        aliases = {"no-recorded-size": {"sri": sri}, "wrong-recorded-size": {"sri": sri, "size": rng.choice([0, 1, size - 1, size + 1, 2 * size])}}
+        for an, ao in aliases.items():
+            ctx.call("sync@astd", {"op": "index_insert", "cache": cache, "key": f"{key}-{an}", "opts": ao})
         for spec in specs:
             cls = spec[0]
             with damage.Damaged(path, opath, spec, data, other):
@@ -44,6 +50,11 @@ def size_sweep(ctx, rng, cache, destroot, modes):
                     bs = rng.choice(retr.BUFSETS[2:]) if n in retr.CHECKED_STREAM else None
                     reqs.append(retr.request(n, cache, key, sri, dest, bs))
                     meta.append((n, dest, bs))
+                    if n in ("read", "reader_key", "copy", "hard_link"):
+                        for an in aliases:
+                            adest = os.path.join(ddir, f"{n}-{an}") if dest else None
+                            reqs.append(retr.request(n, cache, f"{key}-{an}", sri, adest, bs))
+                            meta.append((f"{n}[{an}]", adest, bs))
                 for (n, dest, bs), r, q in zip(meta, ctx.batch(mode, reqs), reqs):
                     ok = ev.is_ok(r)
                     delivered = None
@@ -52,7 +63,7 @@ def size_sweep(ctx, rng, cache, destroot, modes):
                     ctx.count("size_sweep_retrievals")
                     ctx.case(distinct_key=("sweep", n, mode, cls, size))
                     if cls == "control-no-damage":
-                        if not ok or delivered != data:
+                        if (not ok and "[" not in n) or (ok and delivered != data):
                             ctx.violation(f"{n}|{mode}|undamaged|size-sweep",
                                           f"{n} in {mode} (buffers {bs}) on an UNDAMAGED {size}-byte entry: "
                                           + (f"Ok but delivered {None if delivered is None else len(delivered)} bytes that differ from the stored ones"
@@ -87,7 +98,7 @@ def run(ctx):
                 "(reflink also under an emulated FICLONE so the code after verification is reached). A retrieval is "
                 "non-trivial when the damage really changed the file's bytes. Size sweep: every size 2^k, 3*2^k and neighbours "
                 "(k <= 17 quick, 21 thorough), undamaged and damaged at the last/first byte, one byte short, one byte long, "
-                "through every checked entry point. distinct = (entry point, mode, damage "
+                "through every checked entry point, also by keys whose index entry (raw index insert) records no size or a wrong one. distinct = (entry point, mode, damage "
                 "class, position, algo, size)")
     ctx.assumptions = ["no reflink-capable filesystem: ioctl(FICLONE) is emulated by the supervisor",
                        "damage is applied between calls, never during one (concurrent mutation is C07)"]
